@@ -1,23 +1,33 @@
 import DdsModel.Eval
 import DdsProofs.Args
 import DdsProofs.Memo
+import DdsProofs.History
 import DdsProofs.MemoExample
 /-!
 # C01 — memoised evaluation returns exactly what plain execution would return
 
-The property, for the load-free fragment of the model (items `call`, `callArgs`, `ref`, `keep`; literal, default,
-keyword and run-time arguments; data functions; any nesting depth; any number of versions of the code), over a
-`Universe` of function versions (hypotheses: the text determines the program; `dds_hash` injective on the values
-that occur — C05 says exactly where it is not; distinct parameter names):
+The property, for the model's pipelines (items `call`, `callArgs`, `ref`, `keep`, `load`; literal, default, keyword and
+run-time arguments; data functions; any nesting depth; any number of versions of the code), over a `Universe` of function
+versions (hypotheses: the text determines the program; `dds_hash` injective on the values that occur — C05 says exactly
+where it is not; distinct parameter names). The state of a history is the store together with the value plain execution
+has kept at every path (`HState`):
 
-* `sig_sound`       — two analysed calls with the same return signature, in any two versions, have the same plain value;
-* `memo_correct`    — one evaluation against a sound store returns the plain value / raises the plain exception and
-                      leaves a sound store;
+* `sig_sound`       — two analysed calls with the same return signature, in any two versions, run from plain states
+                      that hold, at every path the calls load, the blob of the signature the path resolved to, have the
+                      same plain value;
+* `memo_correct`    — one evaluation against a sound store whose committed paths hold what plain execution has kept
+                      returns the plain value / raises the plain exception, leaves a sound store, loses no blob;
 * `history_correct` — after any history (older versions, other values, restricted stages, failures) from an empty
-                      store, an evaluation returns what plain execution of the current version returns.
-Non-vacuity: `DdsProofs/MemoExample.lean` (a concrete universe with two versions, all hypotheses proved, the
-history computed by the kernel). PARTIAL: pipelines with `dds.load` are outside these three theorems (they are
-decided by the three-way execution of the check); classes / lambdas are outside the model.
+                      store, real or noop, an evaluation returns what plain execution of the current version returns from
+                      the values kept so far.
+Non-vacuity: `DdsProofs/MemoExample.lean` (a concrete universe with two versions and a reader that loads, all
+hypotheses proved, the history computed by the kernel).
+
+PARTIAL — what the three theorems assume beyond the `Universe`: every evaluation loads only paths it does not itself
+produce (`ExternalLoads`: the loaded paths resolve through the store, to what earlier evaluations committed), and an
+explicit `keep` is not applied to a data function (`World.keepsPlain`). Loads of a path produced earlier *in the same
+evaluation* are in the model and in the three-way execution of the check, not in these theorems; classes / lambdas are
+outside the model.
 
 Operational facts:
 
@@ -54,32 +64,47 @@ theorem root_hit_runs_nothing (m : Nat) (W : World) (S : PStore) (rq : Request)
     (evalStep m W S rq).log = [] ∧ (evalStep m W S rq).value = .ok (some v) := by
   simp [evalStep, h, hs, hb]
 
-/-- **a signature determines the plain value** (calls made inside evaluations of any two versions of the code) -/
-theorem sig_sound (U : Universe) (m : Nat) {W1 W2 : World} {fn1 fn2 : Fn} {ctx1 ctx2 : ArgCtx} {env1 env2 : Env}
-    (c1 : Chain U m W1 fn1 ctx1 env1) (c2 : Chain U m W2 fn2 ctx2 env2)
+/-- **a signature determines the plain value** (calls made inside evaluations of any two versions of the code; `Ω`: a
+blob map; each plain state holds, at every path the call loads, the blob of the signature the path resolved to) -/
+theorem sig_sound (U : Universe) (m : Nat) {Ω : Blobs} {W1 W2 : World} {fn1 fn2 : Fn} {ctx1 ctx2 : ArgCtx} {env1 env2 : Env}
+    (c1 : Chain U m Ω W1 fn1 ctx1 env1) (c2 : Chain U m Ω W2 fn2 ctx2 env2)
     (hW1 : U.world W1) (hW2 : U.world W2) (hext : W1.extVersion = W2.extVersion) (hU1 : U.fns fn1) (hU2 : U.fns fn2)
     {fuel1 fuel2 : Nat} {refs1 refs2 : Refs} {stack1 stack2 : List String} {fis1 fis2 : FIS} {r1 r2 : Refs}
     (h1 : analyse m W1 fuel1 refs1 stack1 fn1 ctx1 = .ok (fis1, r1))
     (h2 : analyse m W2 fuel2 refs2 stack2 fn2 ctx2 = .ok (fis2, r2))
-    (hs : fis1.retSig = fis2.retSig) (p1 p2 : PSt) :
+    (hs : fis1.retSig = fis2.retSig) (p1 p2 : PSt)
+    (hl1 : FIS.loadsOK Ω p1.kept fis1) (hl2 : FIS.loadsOK Ω p2.kept fis2) :
     (plainFn W1 fuel1 p1 fn1 env1).1 = (plainFn W2 fuel2 p2 fn2 env2).1 :=
-  sig_sound_full U m c1 c2 hW1 hW2 hext hU1 hU2 h1 h2 hs p1 p2
+  sig_sound_full U m c1 c2 hW1 hW2 hext hU1 hU2 h1 h2 hs p1 p2 hl1 hl2
 
-/-- **one evaluation against a sound store** returns the plain value and leaves a sound store -/
-theorem memo_correct (U : Universe) (m x : Nat) (W : World) (S : PStore) (rq : Request)
-    (hW : U.world W) (hx : W.extVersion = x) (hrq : U.request rq) (hS : Sound U m x S) :
-    Sound U m x (evalStep m W S rq).store ∧
-    ∀ fn env fis' paths, analysisPhase m W S rq = .ok (fn, env, fis', paths) → Stage.eval ∈ rq.stages →
-      ∀ p, (evalStep m W S rq).value = ((plainFn W W.fuel p fn env).1).map some :=
-  Dds.memo_correct U m x W S rq hW hx hrq hS
+/-- **one evaluation against a sound store** whose committed paths hold what plain execution has kept (`K`): the value is
+the plain one, from `K`; the store stays sound and loses no blob -/
+theorem memo_correct (U : Universe) (m x : Nat) (W : World) (S : PStore) (K : LoadEnv) (rq : Request)
+    (E : EvalCtx U x W) (hrq : U.request rq) (hS : Sound U m x S) (hPK : PathsKept S K)
+    {fn : Fn} {env : Env} {fis' : FIS} {paths : List (String × Sg)}
+    (ha : analysisPhase m W S rq = .ok (fn, env, fis', paths)) (hext : ∀ p ∈ fis'.allLoads, External paths p) :
+    Sound U m x (evalStep m W S rq).store ∧ Extends S (evalStep m W S rq).store ∧
+    (Stage.eval ∈ rq.stages →
+      (evalStep m W S rq).value = ((plainFn W W.fuel { kept := K } fn env).1).map some) :=
+  let h := Dds.memo_correct U m x W S K rq E hrq hS hPK ha hext
+  ⟨h.1, h.2.1, h.2.2.1⟩
+
+/-- the invariant of a history (sound store; closed, or noop without committed paths; every committed path resolves to
+the blob plain execution has kept at the path) holds after every history from an empty store -/
+theorem history_invariant (U : Universe) (m x : Nat) (noop : Bool) (hist : List HStep)
+    (hok : histOK U m x { store := { noop := noop }, kept := [] } hist) :
+    HInv U m x (runHist m { store := { noop := noop }, kept := [] } hist) :=
+  hinv_history U m x hist _ (hinv_empty U m x noop) hok
 
 /-- **C01 over histories**: whatever was evaluated earlier against the same store -/
-theorem history_correct (U : Universe) (m x : Nat) (noop : Bool) (hist : List HStep) (hok : ∀ s ∈ hist, s.ok U x)
-    (W : World) (rq : Request) (hW : U.world W) (hx : W.extVersion = x) (hrq : U.request rq)
-    (fn : Fn) (env : Env) (fis : FIS) (paths : List (String × Sg))
-    (ha : analysisPhase m W (runHistory m { noop := noop } hist) rq = .ok (fn, env, fis, paths))
-    (hs : Stage.eval ∈ rq.stages) (p : PSt) :
-    (evalStep m W (runHistory m { noop := noop } hist) rq).value = ((plainFn W W.fuel p fn env).1).map some :=
-  Dds.history_correct U m x noop hist hok W rq hW hx hrq fn env fis paths ha hs p
+theorem history_correct (U : Universe) (m x : Nat) (noop : Bool) (hist : List HStep)
+    (hok : histOK U m x { store := { noop := noop }, kept := [] } hist)
+    (W : World) (rq : Request) (E : EvalCtx U x W) (hrq : U.request rq)
+    {fn : Fn} {env : Env} {fis : FIS} {paths : List (String × Sg)}
+    (ha : analysisPhase m W (runHist m { store := { noop := noop }, kept := [] } hist).store rq = .ok (fn, env, fis, paths))
+    (hext : ∀ p ∈ fis.allLoads, External paths p) (hs : Stage.eval ∈ rq.stages) :
+    (evalStep m W (runHist m { store := { noop := noop }, kept := [] } hist).store rq).value =
+      ((plainFn W W.fuel { kept := (runHist m { store := { noop := noop }, kept := [] } hist).kept } fn env).1).map some :=
+  history_value U m x noop hist hok W rq E hrq ha hext hs
 
 end Dds.C01
